@@ -7,7 +7,11 @@
    D ...  the same with the DOCUMENTED depth 256 (a constant of the specification, not GenConsts.NDEPT)
    C <pat,pat,...>   ->  compile only, whatever the size (length computed in Z, nothing emitted): rej | ok n= res=
    T <pat,pat,...>   ->  the parse tree of the combined pattern as an S-expression (for the oracle)
-   S <pat,pat,...>   ->  shape=1|0: the executable check RsetDefs.rset_shape (hypothesis of C10_rset_index) *)
+   S <pat,pat,...>   ->  shape=1|0: the executable check RsetDefs.rset_shape (hypothesis of C10_rset_index)
+   Q <op> <op> ...   ->  a sequence of calls in one process, run by the THREADED model ReStateDefs.session_gen (the static
+                         flag re_bad of regex.c is explicit state; it also survives from one Q line to the next, as in the
+                         probe process): M<flg>:<pat,...> ("~" = NULL entry) | G:<pat> | F<slot>:<nsub>:<eflg>:<line>;
+                         answers joined by " ; ":  rej | ok n=<emitted> | none | set=.. g=.. cut=.. | oob site=.. | nofuel *)
 let pr = Printf.printf
 let maxres = match Sys.getenv_opt "PROBE_RE_MAXRES" with Some s -> int_of_string s | None -> 200000
 let site_name = function SUcLen -> "uclen" | SUcDec -> "ucdec" | SBrace -> "brace" | SOther -> "other"
@@ -94,6 +98,48 @@ let do_rset depth flg nsub patw casew =
           pr " cut=%d" (int_of_n cut)) (split_on ',' casew);
         pr "\n"
 
+(* ---- sessions ---- *)
+let flag = ref false       (* re_bad of this process *)
+
+let parse_op w =
+  let n = String.length w in
+  let after i = String.sub w (i + 1) (n - i - 1) in
+  match w.[0] with
+  | 'M' ->
+    let i = String.index w ':' in
+    let flg = int_of_string (String.sub w 1 (i - 1)) in
+    let pats = List.map (fun h -> if h = "~" then None else Some (bytes_of_hex h)) (split_on ',' (after i)) in
+    OMake (pats, z_of_int flg)
+  | 'G' -> OComp (bytes_of_hex (after 1))
+  | 'F' ->
+    (match String.split_on_char ':' (String.sub w 1 (n - 1)) with
+     | [sl; nsub; ef; line] -> OFind (nat_of_int (int_of_string sl), bytes_of_hex line, nat_of_int (int_of_string nsub), z_of_int (int_of_string ef))
+     | _ -> failwith "bad F")
+  | _ -> failwith "bad op"
+
+let obs_str = function
+  | BMake (Ok (Some rs)) -> Printf.sprintf "ok n=%d" (int_of_nat (length rs.rs_prog.code))
+  | BComp (Ok (Some p)) -> Printf.sprintf "ok n=%d" (int_of_nat (length p.code))
+  | BMake (Ok None) | BComp (Ok None) -> "rej"
+  | BMake (OOB s) | BComp (OOB s) -> "oob site=" ^ site_name s
+  | BMake NoFuel | BComp NoFuel -> "nofuel"
+  | BNone -> "none"
+  | BFind (r, cut) ->
+    (match r with
+     | Ok (set, g) ->
+       Printf.sprintf "set=%d%s" (int_of_z set)
+         (if int_of_z set >= 0 then " g=" ^ String.concat "," (List.map (fun (so, eo) -> Printf.sprintf "%d.%d" (int_of_z so) (int_of_z eo)) g) else "")
+     | OOB s -> "oob site=" ^ site_name s
+     | NoFuel -> "nofuel") ^ Printf.sprintf " cut=%d" (int_of_n cut)
+
+let do_session ws =
+  match (try Some (List.map parse_op ws) with _ -> None) with
+  | None -> pr "?\n"
+  | Some ops ->
+    let (os, st) = session_gen true depth ops [] !flag in
+    flag := st;
+    pr "%s\n" (String.concat " ; " (List.map obs_str os))
+
 let () =
   iter_lines (fun l ->
     (match words l with
@@ -103,5 +149,6 @@ let () =
      | ["T"; p] -> do_tree p
      | ["C"; p] -> do_comp p
      | ["S"; p] -> pr "shape=%d\n" (if rset_shape (pats_of p) then 1 else 0)
+     | "Q" :: ws -> do_session ws
      | _ -> pr "?\n");
     flush stdout)
